@@ -238,10 +238,13 @@ def build_csr(rng: random.Random) -> Any:
 
 def build_misc(rng: random.Random, dw: bool = False) -> Any:
     import pytato as pt
-    from vf.vtags import VAxisTag, VTag
+    from vf.vtags import VAxisTag, VNote, VTag
     x = pt.make_placeholder("x", (3, 4), np.float64, tags=frozenset({VTag(1)}))
     y = pt.make_placeholder("y", (4,), np.float32)
     a = pt.roll(x, rng.randrange(1, 3), axis=1)
+    # several tags of ONE class with string fields on a node and on an axis
+    a = a.tagged(VNote("flux")).tagged(VNote("volume")).tagged(VNote("surface"))
+    a = a.with_tagged_axis(1, VNote("radial")).with_tagged_axis(1, VNote("azimuthal"))
     b = x.T.reshape(2, 6, order=rng.choice(["C", "F"]))
     c = pt.concatenate([x, x * 2], axis=0)[1:5:2, ::-1]
     d = pt.stack([y, y + 1]).with_tagged_axis(0, VAxisTag(2))
